@@ -58,3 +58,7 @@ Lemma tie_rec_notes : forall a, (match a with Chg => chg_notes | _ => "" end) = 
 Proof. intros [| |]; reflexivity. Qed.
 Lemma tie_rec_orders : map action_text [Del; Add; Chg] = src_rec_actions /\ ["kex"; "key"; "enc"; "mac"] = src_rec_categories.
 Proof. split; reflexivity. Qed.
+
+(* the translator found the source shape it extracts recommendation_lists from (otherwise gen/Tables.v carries fallback values and this lemma fails) *)
+Lemma tie_extract_ok_recommendation_lists : extract_ok_recommendation_lists = true.
+Proof. reflexivity. Qed.
